@@ -164,6 +164,15 @@ def check_dataset(case: dict):
         single = verified[i]
         require(arr[0, pos].shape == single[0].shape and np.array_equal(arr[0, pos], single[0]) and np.array_equal(arr[1, pos], single[1]), "C17:get_batch:order",
                 f"batch position {pos} (of {len(eff)}) does not hold the images of item {i}; idxs={idxs if len(eff) <= 12 else str(eff[:12]) + '...'}")
+    # the caller keeps the batch and asks for another one of the same length (other order), as when an epoch's batches are collected in a
+    # list or a validation batch is fetched while the training batch is still held: both batches hold their own items afterwards
+    if idxs is not None and 1 <= len(eff) <= 64:
+        eff2 = [eff[(k + 1) % len(eff)] for k in range(len(eff))][::-1] if len(set(eff)) > 1 else [(i + 1) % len(items) for i in eff]
+        arr2 = call("C17:get_batch", rds.get_batch, eff2).numpy()
+        for which, a_, e_ in (("second", arr2, eff2), ("first (kept while the second was fetched)", arr, eff)):
+            for pos, i in enumerate(e_):
+                require(np.array_equal(a_[0, pos], verified[i][0]) and np.array_equal(a_[1, pos], verified[i][1]), "C17:get_batch:order",
+                        f"after two batches of {len(eff)} indices the {which} batch does not hold the images of item {i} at position {pos}; idxs={eff} then {eff2}")
     if case.get("flip"):
         # the options live in the dataset's configuration: after the caller changes them there, the same object must rasterize accordingly
         new_opts = tuple(bool(a) != bool(b) for a, b in zip(opts, case["flip"]))
